@@ -1,0 +1,48 @@
+//go:build verif
+
+package risc
+
+import "sync"
+
+// Verification hooks (build tag `verif`). They only observe: a tick counter per
+// Context with an optional budget; exceeding the budget aborts the run with a
+// distinguishable panic so that a hang is reported instead of blocking a checker.
+
+// VerifBudgetExceeded is the panic value raised by VerifTick.
+type VerifBudgetExceeded struct{ Ticks int }
+
+type verifState struct {
+	ticks  int
+	budget int
+}
+
+var verifStates sync.Map // *Context -> *verifState
+
+// VerifSetBudget arms the tick budget of a context (0 disables it).
+func (ctx *Context) VerifSetBudget(budget int) {
+	verifStates.Store(ctx, &verifState{budget: budget})
+}
+
+// VerifTicks returns the number of ticks seen so far.
+func (ctx *Context) VerifTicks() int {
+	if s, ok := verifStates.Load(ctx); ok {
+		return s.(*verifState).ticks
+	}
+	return 0
+}
+
+// VerifRelease forgets the state of a context.
+func (ctx *Context) VerifRelease() { verifStates.Delete(ctx) }
+
+// VerifTick is called once per iteration of every Run loop.
+func (ctx *Context) VerifTick() {
+	s, ok := verifStates.Load(ctx)
+	if !ok {
+		return
+	}
+	st := s.(*verifState)
+	st.ticks++
+	if st.budget > 0 && st.ticks > st.budget {
+		panic(VerifBudgetExceeded{Ticks: st.ticks})
+	}
+}
